@@ -2,8 +2,9 @@
     the reported fraction of every component in every well is the volume-weighted mixture computed
     in exact arithmetic; fractions stay in [0, 1], sum to 1 in every non-empty well, removing liquid
     never changes a composition, and component amounts are conserved by transfers.
-    Statements only; proofs live in Proofs/MixingProofs.v, the ideal-mixing specification and the
-    invariants in Spec/Mixing.v.
+    Statements only; proofs live in Proofs/MixingProofs.v, Proofs/MixingRunProofs.v (whole programs)
+    and Proofs/MixingExtraProofs.v (ideal mixing for whole calls and whole programs, last part of
+    this file); the ideal-mixing specification and the invariants are in Spec/Mixing.v.
 
     Definitions used (Spec/Mixing.v):
       [cget k c]        value bound to component [k] in the composition [c], 0 if absent
@@ -18,7 +19,7 @@
       [lw_amount], [total_amount]   amount of a component in a labware / in all labware *)
 From Robo Require Import Prelude Str Wells Utils Labware Tips Records Partition Params Worklist
   Invariants Mixing WellsProofs MixingProofs.
-From Robo Require Import EvoCmd Program MixingRunProofs.
+From Robo Require Import EvoCmd Program MixingRunProofs MixingExtraProofs.
 #[local] Open Scope Q_scope.
 
 (* ------------------------------------------------------------------ C05_combine *)
@@ -751,5 +752,691 @@ Example C05_example_prog :
       | _ => False
       end
   | _, _ => False
+  end.
+Proof. vm_compute. repeat split. Qed.
+
+(* ================================================================== C05_refines, whole calls and whole
+   programs (review item M1): the tracked composition IS ideal volumetric mixing, computed in exact
+   arithmetic, for transfers, distributions, additions / dispenses with given compositions and
+   removals / aspirations, call by call and along whole programs.
+   Proofs: Proofs/MixingExtraProofs.v.  The reference is [iwell] / [is_transfer] / [is_exec] of
+   Spec/Mixing.v, extended by the definitions restated in [C05_ideal_*] below:
+     [is_add sg k L items]   liquids [(well id, volume, composition)] enter labware [k], one ideal
+                             addition [iw_add] per item, in call order (a repeated well is mixed twice)
+     [is_rem sg k L items]   liquid [(well id, volume)] leaves, one [iw_remove] per item
+     [transfer_triples], [dist_steps]   the steps a [transfer] / [distribute] call asks for
+     [is_op auto m lws o]    the ideal meaning of one accepted call: [Some f], or [None] if the call
+                             has none (unknown labware, non-finite volume, missing composition, ...)
+     [is_run auto m lws ops] the calls of a program one after the other
+     [is_partial], [is_partial_step], [ideal_run]   what rejected calls can leave behind
+   Well ids are resolved by [lw_index] on the labware's geometry, which no call ever changes
+   ([C05_frame]); trough wells addressed through different virtual rows are the same real well. *)
+
+#[local] Close Scope string_scope.
+
+(* ------------------------------------------------------------------ the definitions, restated *)
+
+Theorem C05_ideal_add : forall sg k L,
+  is_add sg k L [] = sg /\
+  forall w v c r, is_add sg k L ((w, v, c) :: r) =
+    match lw_index L w with
+    | Some i => is_add (is_upd sg k i (iw_add (sg k i) v (fun x => cget x c))) k L r
+    | None => sg
+    end.
+Proof. exact is_add_spec. Qed.
+Print Assumptions C05_ideal_add.
+
+Theorem C05_ideal_rem : forall sg k L,
+  is_rem sg k L [] = sg /\
+  forall w v r, is_rem sg k L ((w, v) :: r) =
+    match lw_index L w with
+    | Some i => is_rem (is_upd sg k i (iw_remove (sg k i) v)) k L r
+    | None => sg
+    end.
+Proof. exact is_rem_spec. Qed.
+Print Assumptions C05_ideal_rem.
+
+(** the steps of a [transfer] (numpy broadcasting of the three arguments) and of a [distribute] *)
+Theorem C05_ideal_steps : forall swells dwells (vols : arr Q) col (dw : arr string) v,
+  transfer_triples swells dwells vols =
+    (let sw := flattenF swells in let dw := flattenF dwells in let vs := flattenF vols in
+     let nmax := Nat.max (length sw) (Nat.max (length dw) (length vs)) in
+     zip (zip (broadcast sw nmax) (broadcast dw nmax)) (broadcast vs nmax)) /\
+  dist_steps col dw v = map (fun w => Step (well_id 0 (Z.to_nat col)) w v) (flattenF dw).
+Proof. exact (fun _ _ _ _ _ _ => conj eq_refl eq_refl). Qed.
+Print Assumptions C05_ideal_steps.
+
+(** [all_some] / [xq_list]: all compositions are given / all volumes are finite numbers *)
+Theorem C05_ideal_lists : forall (l : list (option composition)) (xs : list composition),
+  (all_some l = Some xs <-> l = map Some xs) /\
+  (forall (vs : list xnum) (qs : list Q), xq_list vs = Some qs <-> vs = map XQ qs).
+Proof. exact (@all_some_spec composition). Qed.
+Print Assumptions C05_ideal_lists.
+
+Theorem C05_ideal_call_shapes : forall lws k wells vols comps,
+  is_addcall lws k wells vols comps =
+    match comps with
+    | Some cs0 =>
+        match all_some cs0, xq_list (broadcast (flattenF vols) (length (flattenF wells))), nth_error lws k with
+        | Some cs, Some vs, Some L => Some (fun W => is_add W k L (zip (zip (flattenF wells) vs) cs))
+        | _, _, _ => None
+        end
+    | None => None
+    end /\
+  is_remcall lws k wells vols =
+    match xq_list (broadcast (flattenF vols) (length (flattenF wells))), nth_error lws k with
+    | Some vs, Some L => Some (fun W => is_rem W k L (zip (flattenF wells) vs))
+    | _, _ => None
+    end.
+Proof. exact call_shapes_spec. Qed.
+Print Assumptions C05_ideal_call_shapes.
+
+(** one accepted call ([auto], [m]: auto_split_tips and max_volume of the worklist; [lws]: the
+    labware set, of which only the geometries are looked at) *)
+Theorem C05_ideal_op : forall auto m lws o,
+  is_op auto m lws o =
+  match o with
+  | OAdd k ws vs _ cs => is_addcall lws k ws vs cs
+  | ODispense k ws vs _ cs _ => is_addcall lws k ws vs cs
+  | OEvoDisp k a _ cs => is_addcall lws k (c_wells a) (evo_vols (c_volume a)) cs
+  | ORemove k ws vs _ => is_remcall lws k ws vs
+  | OAspirate k ws vs _ _ => is_remcall lws k ws vs
+  | OEvoAsp k a _ => is_remcall lws k (c_wells a) (evo_vols (c_volume a))
+  | OTransfer ks sw kd dw vs _ _ pb _ =>
+      match nth_error lws ks, nth_error lws kd with
+      | Some Ls, Some Ld =>
+          match optimize_partition_by (is_trough (lw_geom Ls)) (is_trough (lw_geom Ld)) pb with
+          | Ok mode => Some (fun W => is_exec W ks kd Ls Ld (plan auto m mode (transfer_triples sw dw vs)))
+          | Err _ => None
+          end
+      | _, _ => None
+      end
+  | ODistribute ks kd dw a =>
+      match nth_error lws ks, nth_error lws kd, rvol_x (d_volume a) with
+      | Some Ls, Some Ld, Some (XQ v) =>
+          if Qltb 0 v then Some (fun W => is_exec W ks kd Ls Ld (dist_steps (d_source_column a) dw v))
+          else if Qeq_bool v 0 then Some (fun W => W)
+          else None
+      | _, _, _ => None
+      end
+  | _ => Some (fun W => W)
+  end.
+Proof. exact is_op_spec. Qed.
+Print Assumptions C05_ideal_op.
+
+Theorem C05_ideal_run : forall auto m lws,
+  is_run auto m lws [] = Some (fun W => W) /\
+  forall o r, is_run auto m lws (o :: r) =
+    match is_op auto m lws o, is_run auto m lws r with
+    | Some f, Some g => Some (fun W => g (f W))
+    | _, _ => None
+    end.
+Proof. exact is_run_spec. Qed.
+Print Assumptions C05_ideal_run.
+
+(** the programs the run-level theorems speak about: [op_mix o] - every composition the call
+    supplies is given and is a dict of fractions; [call_ok o e] - the call was accepted, or it is one
+    that moves no liquid whatever its outcome ([condense_log], the record-only calls) *)
+Theorem C05_run_classes : forall (o : op) (e : option err),
+  op_mix o = match o with
+             | OAdd _ _ _ _ cs => comps_given cs
+             | ODispense _ _ _ _ cs _ => comps_given cs
+             | OEvoDisp _ _ _ cs => comps_given cs
+             | _ => True
+             end /\
+  (forall comps, comps_given comps =
+     match comps with
+     | Some cs => Forall (fun oc => match oc with Some c => comp_ok c | None => False end) cs
+     | None => False
+     end) /\
+  op_effectless o = match o with OCondense _ _ _ => True | _ => op_record_only o end /\
+  call_ok o e = (e = None \/ op_effectless o).
+Proof. exact run_classes_spec. Qed.
+Print Assumptions C05_run_classes.
+
+(* ------------------------------------------------------------------ (a) transfer, with its plan named *)
+
+(** the plan is computed from the arguments alone: the triples of the call, auto_split_tips and
+    max_volume of the worklist, and the partitioning mode [optimize_partition_by] chooses *)
+Theorem C05_refines_transfer_plan : forall s ks swells kd dwells vols label ws pb kw s' Ls Ld,
+  st_inv s -> nth_error (st_lw s) ks = Some Ls -> nth_error (st_lw s) kd = Some Ld ->
+  transfer s ks swells kd dwells vols label ws pb kw = (s', None) ->
+  exists mode, optimize_partition_by (is_trough (lw_geom Ls)) (is_trough (lw_geom Ld)) pb = Ok mode /\
+    forall k i, iw_eq (abs_state s' k i) (is_exec (abs_state s) ks kd Ls Ld
+       (plan (w_autosplit (st_wl s)) (w_max (st_wl s)) mode (transfer_triples swells dwells vols)) k i).
+Proof. exact transfer_refines_plan. Qed.
+Print Assumptions C05_refines_transfer_plan.
+
+(* ------------------------------------------------------------------ (b) distribute *)
+
+(** an accepted distribution of a positive volume is the ideal execution of one pipetting step
+    source column -> destination well per addressed well, in the order given; destinations may
+    repeat, lie in the source labware, be the source well itself, or be one trough well addressed
+    through several virtual rows *)
+Theorem C05_refines_distribute : forall s ks kd dwells a s' Ls Ld v, st_inv s ->
+  nth_error (st_lw s) ks = Some Ls -> nth_error (st_lw s) kd = Some Ld ->
+  rvol_x (d_volume a) = Some (XQ v) -> 0 < v -> distribute s ks kd dwells a = (s', None) ->
+  forall k i, iw_eq (abs_state s' k i) (is_exec (abs_state s) ks kd Ls Ld
+     (map (fun w => Step (well_id 0 (Z.to_nat (d_source_column a))) w v) (flattenF dwells)) k i).
+Proof. exact distribute_refines. Qed.
+Print Assumptions C05_refines_distribute.
+
+(** the volume of an accepted distribution is a number that is not negative (infinite, NaN and
+    negative volumes are refused) ... *)
+Theorem C05_distribute_volume : forall s ks kd dwells a s', distribute s ks kd dwells a = (s', None) ->
+  exists v, rvol_x (d_volume a) = Some (XQ v) /\ 0 <= v.
+Proof. exact distribute_volume. Qed.
+Print Assumptions C05_distribute_volume.
+
+(** ... and volume zero is accepted: the model mixes a zero volume into every destination, which
+    changes no volume and no amount (the ideal step would divide by the volume of a possibly
+    empty source, so this case is stated apart) *)
+Theorem C05_refines_distribute_zero : forall s ks kd dwells a s' v, st_inv s ->
+  rvol_x (d_volume a) = Some (XQ v) -> v == 0 -> distribute s ks kd dwells a = (s', None) ->
+  forall k i, iw_eq (abs_state s' k i) (abs_state s k i).
+Proof. exact distribute_refines_zero. Qed.
+Print Assumptions C05_refines_distribute_zero.
+
+(** the order the model itself works in, for any accepted volume: [n * v] leave the source column
+    at once, then each destination receives [v] of a liquid with the source's fractions
+    ([well_composition_at Ls i_s], what [get_well_composition] reads, see C05_source_composition) *)
+Theorem C05_refines_distribute_bulk : forall s ks kd dwells a s' Ls Ld, st_inv s ->
+  nth_error (st_lw s) ks = Some Ls -> nth_error (st_lw s) kd = Some Ld ->
+  distribute s ks kd dwells a = (s', None) ->
+  exists v i_s,
+    rvol_x (d_volume a) = Some (XQ v) /\ 0 <= v /\
+    lw_index Ls (well_id 0 (Z.to_nat (d_source_column a))) = Some i_s /\
+    Forall (fun w => lw_index Ld w <> None) (flattenF dwells) /\ flattenF dwells <> [] /\
+    Qn (length (flattenF dwells)) * v <= vol_at Ls i_s /\
+    let X := vol_at Ls i_s - Qn (length (flattenF dwells)) * v in
+    forall k i, iw_eq (abs_state s' k i)
+      (is_add (is_upd (abs_state s) ks i_s
+                 {| iw_vol := X; iw_amt := fun x => X * cget x (well_composition_at Ls i_s) |})
+              kd Ld (map (fun w => (w, v, well_composition_at Ls i_s)) (flattenF dwells)) k i).
+Proof. exact distribute_refines_bulk. Qed.
+Print Assumptions C05_refines_distribute_bulk.
+
+(** what [get_well_composition] reads from a well is its fractions *)
+Theorem C05_source_composition : forall L i, mix_inv L ->
+  forall x, cget x (well_composition_at L i) == frac L x i.
+Proof. exact source_comp_frac. Qed.
+Print Assumptions C05_source_composition.
+
+(** a fact about the specification alone: taking [n * v] at once and then adding [v] of the
+    source's liquid per destination is the same as [n] successive ideal pipetting steps *)
+Theorem C05_ideal_distribute : forall ks kd Ls Ld sw i_s v c, lw_index Ls sw = Some i_s -> 0 < v ->
+  forall dws (W : istate) X,
+   Forall (fun w => lw_index Ld w <> None) dws ->
+   iw_eq (W ks i_s) {| iw_vol := X; iw_amt := fun x => X * cget x c |} ->
+   Qn (length dws) * v <= X ->
+   forall k i, iw_eq
+     (is_exec W ks kd Ls Ld (map (fun w => Step sw w v) dws) k i)
+     (is_add (is_upd W ks i_s {| iw_vol := X - Qn (length dws) * v;
+                                  iw_amt := fun x => (X - Qn (length dws) * v) * cget x c |})
+             kd Ld (map (fun w => (w, v, c)) dws) k i).
+Proof. exact dist_ideal. Qed.
+Print Assumptions C05_ideal_distribute.
+
+(* ------------------------------------------------------------------ (c) add / dispense with given compositions *)
+
+(** the whole call: every volume is a non-negative number, there is one composition per addressed
+    well, and every occurrence of a well is one ideal addition, in call order *)
+Theorem C05_refines_dispense : forall s k wells vols label cs kw s' L, st_inv s -> Forall comp_ok cs ->
+  nth_error (st_lw s) k = Some L ->
+  dispense s k wells vols label (Some (map Some cs)) kw = (s', None) ->
+  exists vs, broadcast (flattenF vols) (length (flattenF wells)) = map XQ vs /\
+    Forall (fun v => 0 <= v) vs /\ length vs = length (flattenF wells) /\
+    length cs = length (flattenF wells) /\
+    forall k' i, iw_eq (abs_state s' k' i)
+                       (is_add (abs_state s) k L (zip (zip (flattenF wells) vs) cs) k' i).
+Proof. exact dispense_refines. Qed.
+Print Assumptions C05_refines_dispense.
+
+(** [add] called directly on labware [k] of a program state *)
+Theorem C05_refines_add : forall s k wells vols label cs s' L, st_inv s -> Forall comp_ok cs ->
+  nth_error (st_lw s) k = Some L ->
+  step s (OAdd k wells vols label (Some (map Some cs))) = (s', None) ->
+  exists vs, broadcast (flattenF vols) (length (flattenF wells)) = map XQ vs /\
+    Forall (fun v => 0 <= v) vs /\ length vs = length (flattenF wells) /\
+    length cs = length (flattenF wells) /\
+    forall k' i, iw_eq (abs_state s' k' i)
+                       (is_add (abs_state s) k L (zip (zip (flattenF wells) vs) cs) k' i).
+Proof. exact step_add_refines. Qed.
+Print Assumptions C05_refines_add.
+
+(** removals: every occurrence of a well is one ideal removal, every amount of the well shrinks
+    by the same factor (in an empty well, where only volume 0 can be removed, the amounts are 0
+    and the factor is immaterial) *)
+Theorem C05_refines_aspirate : forall s k wells vols label kw s' L, st_inv s ->
+  nth_error (st_lw s) k = Some L -> aspirate s k wells vols label kw = (s', None) ->
+  exists vs, broadcast (flattenF vols) (length (flattenF wells)) = map XQ vs /\
+    Forall (fun v => 0 <= v) vs /\ length vs = length (flattenF wells) /\
+    forall k' i, iw_eq (abs_state s' k' i) (is_rem (abs_state s) k L (zip (flattenF wells) vs) k' i).
+Proof. exact aspirate_refines. Qed.
+Print Assumptions C05_refines_aspirate.
+
+Theorem C05_refines_remove : forall s k wells vols label s' L, st_inv s ->
+  nth_error (st_lw s) k = Some L -> step s (ORemove k wells vols label) = (s', None) ->
+  exists vs, broadcast (flattenF vols) (length (flattenF wells)) = map XQ vs /\
+    Forall (fun v => 0 <= v) vs /\ length vs = length (flattenF wells) /\
+    forall k' i, iw_eq (abs_state s' k' i) (is_rem (abs_state s) k L (zip (flattenF wells) vs) k' i).
+Proof. exact step_remove_refines. Qed.
+Print Assumptions C05_refines_remove.
+
+(* ------------------------------------------------------------------ (d) whole programs *)
+
+(** no call, accepted or rejected, changes the geometry of a labware, [max_volume] or
+    [auto_split_tips]: the parameters of the ideal semantics are those of the initial state *)
+Theorem C05_frame : forall s o,
+  map lw_geom (st_lw (fst (step s o))) = map lw_geom (st_lw s) /\
+  w_max (st_wl (fst (step s o))) = w_max (st_wl s) /\
+  w_autosplit (st_wl (fst (step s o))) = w_autosplit (st_wl s).
+Proof. exact frame_step. Qed.
+Print Assumptions C05_frame.
+
+(** the ideal meaning of a call respects equality of ideal states *)
+Theorem C05_ideal_congruence : forall auto m lws ops F, is_run auto m lws ops = Some F ->
+  forall W W', (forall k i, iw_eq (W k i) (W' k i)) -> forall k i, iw_eq (F W k i) (F W' k i).
+Proof. exact is_run_congr. Qed.
+Print Assumptions C05_ideal_congruence.
+
+(** one call, in a state [s] reached from [s0] (same geometries, same worklist parameters) *)
+Theorem C05_step_refines : forall s0 s o, st_inv s ->
+  map lw_geom (st_lw s) = map lw_geom (st_lw s0) /\
+  w_max (st_wl s) = w_max (st_wl s0) /\ w_autosplit (st_wl s) = w_autosplit (st_wl s0) ->
+  op_mix o -> call_ok o (snd (step s o)) ->
+  exists f, is_op (w_autosplit (st_wl s0)) (w_max (st_wl s0)) (st_lw s0) o = Some f /\
+    forall k i, iw_eq (abs_state (fst (step s o)) k i) (f (abs_state s) k i).
+Proof. exact step_refines. Qed.
+Print Assumptions C05_step_refines.
+
+(** THE RUN-LEVEL STATEMENT: for a program of transfers, distributions, additions / dispenses with
+    given compositions, removals / aspirations (also the EVOware commands), [condense_log] and
+    record-only calls whose liquid-moving calls were all accepted, every call has an ideal
+    meaning and the final tracked state is the fold of these meanings over the initial state *)
+Theorem C05_run_refines : forall ops s, st_inv s -> Forall op_mix ops ->
+  Forall2 call_ok ops (snd (run s ops)) ->
+  exists F, is_run (w_autosplit (st_wl s)) (w_max (st_wl s)) (st_lw s) ops = Some F /\
+    forall k i, iw_eq (abs_state (fst (run s ops)) k i) (F (abs_state s) k i).
+Proof. exact run_refines. Qed.
+Print Assumptions C05_run_refines.
+
+Theorem C05_run_refines_accepted : forall ops s, st_inv s -> Forall op_mix ops ->
+  Forall (fun e => e = None) (snd (run s ops)) ->
+  exists F, is_run (w_autosplit (st_wl s)) (w_max (st_wl s)) (st_lw s) ops = Some F /\
+    forall k i, iw_eq (abs_state (fst (run s ops)) k i) (F (abs_state s) k i).
+Proof. exact run_refines_accepted. Qed.
+Print Assumptions C05_run_refines_accepted.
+
+(** the state after any prefix whose calls were accepted, whatever happens later *)
+Theorem C05_run_refines_prefix : forall ops s n, st_inv s -> Forall op_mix ops ->
+  Forall2 call_ok (firstn n ops) (firstn n (snd (run s ops))) ->
+  exists F, is_run (w_autosplit (st_wl s)) (w_max (st_wl s)) (st_lw s) (firstn n ops) = Some F /\
+    forall k i, iw_eq (abs_state (fst (run s (firstn n ops))) k i) (F (abs_state s) k i).
+Proof. exact run_refines_prefix. Qed.
+Print Assumptions C05_run_refines_prefix.
+
+(** from labware as the constructors make it (cf. C05_run_from_constructors) *)
+Theorem C05_run_refines_constructed : forall lws w ops,
+  Forall (fun L => (exists a, mk_labware a = Ok L) \/ (exists a, mk_trough a = Ok L)) lws ->
+  Forall op_mix ops ->
+  Forall2 call_ok ops (snd (run {| st_lw := lws; st_wl := w |} ops)) ->
+  exists F, is_run (w_autosplit w) (w_max w) lws ops = Some F /\
+    forall k i, iw_eq (abs_state (fst (run {| st_lw := lws; st_wl := w |} ops)) k i)
+                      (F (abs_state {| st_lw := lws; st_wl := w |}) k i).
+Proof. exact run_refines_constructed. Qed.
+Print Assumptions C05_run_refines_constructed.
+
+(** after a rejected call the program goes on from whatever that call left behind
+    ([C05_step_rejected] says what that is): the fold restarts in the state after [ops1] *)
+Theorem C05_run_refines_restart : forall ops1 ops2 s, st_inv s -> Forall op_mix ops1 -> Forall op_mix ops2 ->
+  let s1 := fst (run s ops1) in
+  Forall2 call_ok ops2 (snd (run s1 ops2)) ->
+  exists F, is_run (w_autosplit (st_wl s)) (w_max (st_wl s)) (st_lw s) ops2 = Some F /\
+    forall k i, iw_eq (abs_state (fst (run s (ops1 ++ ops2))) k i) (F (abs_state s1) k i).
+Proof. exact run_refines_restart. Qed.
+Print Assumptions C05_run_refines_restart.
+
+(** the same with hypotheses that evaluate: the labware set is built by the constructors
+    ([build_all]), [op_mixb] decides [op_mix], all outcomes are [None] *)
+Theorem C05_build_all :
+  build_all [] = Some [] /\
+  forall c r, build_all (c :: r) =
+    match (match c with CPlate a => mk_labware a | CTrough a => mk_trough a end), build_all r with
+    | Ok L, Some ls => Some (L :: ls)
+    | _, _ => None
+    end.
+Proof. exact build_all_spec. Qed.
+Print Assumptions C05_build_all.
+
+Theorem C05_mix_check : forall ops, forallb op_mixb ops = true -> Forall op_mix ops.
+Proof. exact ops_mix_check. Qed.
+Print Assumptions C05_mix_check.
+
+Theorem C05_is_none : forall e : option err, is_none e = match e with None => true | Some _ => false end.
+Proof. exact (fun e => eq_refl). Qed.
+Print Assumptions C05_is_none.
+
+Theorem C05_run_refines_built : forall cs lws w ops, build_all cs = Some lws ->
+  forallb op_mixb ops = true ->
+  forallb is_none (snd (run {| st_lw := lws; st_wl := w |} ops)) = true ->
+  exists F, is_run (w_autosplit w) (w_max w) lws ops = Some F /\
+    forall k i, iw_eq (abs_state (fst (run {| st_lw := lws; st_wl := w |} ops)) k i)
+                      (F (abs_state {| st_lw := lws; st_wl := w |}) k i).
+Proof. exact run_refines_built. Qed.
+Print Assumptions C05_run_refines_built.
+
+(* ------------------------------------------------------------------ rejected calls *)
+
+(** A rejected call keeps the effects it had before the failure (as the library does), so the
+    fold of C05_run_refines does not describe it.  What it can leave behind: *)
+
+(** ... a pipetting step [sw -> dw] of volume [v]: nothing, or the aspirated liquid missing from
+    the source (taken, never dispensed), or the whole ideal step (the failure came afterwards) *)
+Theorem C05_partial_step : forall W ks kd Ls Ld sw dw v W',
+  is_partial_step W ks kd Ls Ld sw dw v W' =
+  ((forall k i, iw_eq (W' k i) (W k i)) \/
+   exists i_s, lw_index Ls sw = Some i_s /\
+     ((forall k i, iw_eq (W' k i) (is_upd W ks i_s (iw_remove (W ks i_s) v) k i)) \/
+      exists i_d, lw_index Ld dw = Some i_d /\
+        forall k i, iw_eq (W' k i) (is_transfer W ks i_s kd i_d v k i))).
+Proof. exact is_partial_step_spec. Qed.
+Print Assumptions C05_partial_step.
+
+(** ... a [transfer]: nothing, or the ideal execution of the steps of its plan before the failing
+    one, plus a part of that step *)
+Theorem C05_rejected_transfer : forall s ks swells kd dwells vols label ws pb kw, st_inv s ->
+  snd (transfer s ks swells kd dwells vols label ws pb kw) <> None ->
+  (forall k i, iw_eq (abs_state (fst (transfer s ks swells kd dwells vols label ws pb kw)) k i)
+                     (abs_state s k i)) \/
+  exists Ls Ld mode done sw dw v rest,
+    nth_error (st_lw s) ks = Some Ls /\ nth_error (st_lw s) kd = Some Ld /\
+    optimize_partition_by (is_trough (lw_geom Ls)) (is_trough (lw_geom Ld)) pb = Ok mode /\
+    plan (w_autosplit (st_wl s)) (w_max (st_wl s)) mode (transfer_triples swells dwells vols)
+      = (done ++ Step sw dw v :: rest)%list /\
+    is_partial_step (is_exec (abs_state s) ks kd Ls Ld done) ks kd Ls Ld sw dw v
+      (abs_state (fst (transfer s ks swells kd dwells vols label ws pb kw))).
+Proof. exact transfer_any. Qed.
+Print Assumptions C05_rejected_transfer.
+
+(** ... a [distribute] (stated for any outcome; [j] is the number of wells for an accepted call):
+    nothing, or [n * v] have left the source column at once and the first [j] destination wells
+    have received [v] each *)
+Theorem C05_rejected_distribute : forall s ks kd dwells a, st_inv s ->
+  (forall k i, iw_eq (abs_state (fst (distribute s ks kd dwells a)) k i) (abs_state s k i)) \/
+  exists Ls Ld v i_s j,
+    nth_error (st_lw s) ks = Some Ls /\ nth_error (st_lw s) kd = Some Ld /\
+    rvol_x (d_volume a) = Some (XQ v) /\ 0 <= v /\
+    lw_index Ls (well_id 0 (Z.to_nat (d_source_column a))) = Some i_s /\
+    (j <= length (flattenF dwells))%nat /\
+    (snd (distribute s ks kd dwells a) = None -> j = length (flattenF dwells)) /\
+    Qn (length (flattenF dwells)) * v <= vol_at Ls i_s /\
+    let X := vol_at Ls i_s - Qn (length (flattenF dwells)) * v in
+    forall k i, iw_eq (abs_state (fst (distribute s ks kd dwells a)) k i)
+      (is_add (is_upd (abs_state s) ks i_s
+                 {| iw_vol := X; iw_amt := fun x => X * cget x (well_composition_at Ls i_s) |})
+              kd Ld (map (fun w => (w, v, well_composition_at Ls i_s)) (firstn j (flattenF dwells))) k i).
+Proof. exact distribute_any. Qed.
+Print Assumptions C05_rejected_distribute.
+
+(** ... an addition / a removal: the ideal additions (removals) of the items before the first
+    refused one - possibly none, possibly all, when the failure came after the tracking *)
+Theorem C05_partial_items : forall lws k wells vols comps W W',
+  partial_add lws k wells vols comps W W' =
+    ((forall k' i, iw_eq (W' k' i) (W k' i)) \/
+     exists L cq vq rest, nth_error lws k = Some L /\ comps = Some (map Some cq) /\
+       broadcast (flattenF vols) (length (flattenF wells)) = (map XQ vq ++ rest)%list /\
+       Forall (fun v => 0 <= v) vq /\
+       forall k' i, iw_eq (W' k' i) (is_add W k L (zip (zip (flattenF wells) vq) cq) k' i)) /\
+  partial_rem lws k wells vols W W' =
+    ((forall k' i, iw_eq (W' k' i) (W k' i)) \/
+     exists L vq rest, nth_error lws k = Some L /\
+       broadcast (flattenF vols) (length (flattenF wells)) = (map XQ vq ++ rest)%list /\
+       Forall (fun v => 0 <= v) vq /\
+       forall k' i, iw_eq (W' k' i) (is_rem W k L (zip (flattenF wells) vq) k' i)).
+Proof. exact partial_spec. Qed.
+Print Assumptions C05_partial_items.
+
+(** ... any call of a program *)
+Theorem C05_partial : forall auto m lws o W W',
+  is_partial auto m lws o W W' =
+  match o with
+  | OAdd k ws vs _ cs => partial_add lws k ws vs cs W W'
+  | ODispense k ws vs _ cs _ => partial_add lws k ws vs cs W W'
+  | OEvoDisp k a _ cs => partial_add lws k (c_wells a) (evo_vols (c_volume a)) cs W W'
+  | ORemove k ws vs _ => partial_rem lws k ws vs W W'
+  | OAspirate k ws vs _ _ => partial_rem lws k ws vs W W'
+  | OEvoAsp k a _ => partial_rem lws k (c_wells a) (evo_vols (c_volume a)) W W'
+  | OTransfer ks sw kd dw vs _ _ pb _ =>
+      (forall k i, iw_eq (W' k i) (W k i)) \/
+      exists Ls Ld mode done s d v rest,
+        nth_error lws ks = Some Ls /\ nth_error lws kd = Some Ld /\
+        optimize_partition_by (is_trough (lw_geom Ls)) (is_trough (lw_geom Ld)) pb = Ok mode /\
+        plan auto m mode (transfer_triples sw dw vs) = (done ++ Step s d v :: rest)%list /\
+        is_partial_step (is_exec W ks kd Ls Ld done) ks kd Ls Ld s d v W'
+  | ODistribute ks kd dw a =>
+      (forall k i, iw_eq (W' k i) (W k i)) \/
+      exists Ls Ld v i_s j c X,
+        nth_error lws ks = Some Ls /\ nth_error lws kd = Some Ld /\
+        rvol_x (d_volume a) = Some (XQ v) /\ 0 <= v /\
+        lw_index Ls (well_id 0 (Z.to_nat (d_source_column a))) = Some i_s /\
+        (j <= length (flattenF dw))%nat /\
+        iw_eq (W ks i_s) {| iw_vol := X; iw_amt := fun x => X * cget x c |} /\
+        Qn (length (flattenF dw)) * v <= X /\
+        forall k i, iw_eq (W' k i)
+          (is_add (is_upd W ks i_s
+                     {| iw_vol := X - Qn (length (flattenF dw)) * v;
+                        iw_amt := fun x => (X - Qn (length (flattenF dw)) * v) * cget x c |})
+                  kd Ld (map (fun w => (w, v, c)) (firstn j (flattenF dw))) k i)
+  | _ => forall k i, iw_eq (W' k i) (W k i)
+  end.
+Proof. exact is_partial_spec. Qed.
+Print Assumptions C05_partial.
+
+Theorem C05_step_rejected : forall s0 s o, st_inv s ->
+  map lw_geom (st_lw s) = map lw_geom (st_lw s0) /\
+  w_max (st_wl s) = w_max (st_wl s0) /\ w_autosplit (st_wl s) = w_autosplit (st_wl s0) ->
+  op_mix o -> snd (step s o) <> None ->
+  is_partial (w_autosplit (st_wl s0)) (w_max (st_wl s0)) (st_lw s0) o
+             (abs_state s) (abs_state (fst (step s o))).
+Proof. exact step_partial. Qed.
+Print Assumptions C05_step_rejected.
+
+(** [ideal_run auto m lws ops es W W']: along the program [ops] with outcomes [es], every accepted
+    call acts as its ideal meaning and every rejected call leaves one of the states [is_partial]
+    allows *)
+Theorem C05_ideal_run_relation : forall auto m lws ops es W W',
+  ideal_run auto m lws ops es W W' <->
+  match ops, es with
+  | [], [] => forall k i, iw_eq (W' k i) (W k i)
+  | o :: r, None :: es' =>
+      exists f W1, is_op auto m lws o = Some f /\ (forall k i, iw_eq (W1 k i) (f W k i)) /\
+                   ideal_run auto m lws r es' W1 W'
+  | o :: r, Some _ :: es' =>
+      exists W1, is_partial auto m lws o W W1 /\ ideal_run auto m lws r es' W1 W'
+  | _, _ => False
+  end.
+Proof. exact ideal_run_spec. Qed.
+Print Assumptions C05_ideal_run_relation.
+
+(** THE RUN-LEVEL STATEMENT FOR ARBITRARY OUTCOMES: whatever is accepted and whatever is rejected *)
+Theorem C05_run_refines_any : forall ops s, st_inv s -> Forall op_mix ops ->
+  ideal_run (w_autosplit (st_wl s)) (w_max (st_wl s)) (st_lw s) ops (snd (run s ops))
+            (abs_state s) (abs_state (fst (run s ops))).
+Proof. exact run_refines_any. Qed.
+Print Assumptions C05_run_refines_any.
+
+(** when every call was accepted the relation is the fold *)
+Theorem C05_ideal_run_accepted : forall auto m lws ops es W W', ideal_run auto m lws ops es W W' ->
+  Forall (fun e => e = None) es ->
+  exists F, is_run auto m lws ops = Some F /\ forall k i, iw_eq (W' k i) (F W k i).
+Proof. exact ideal_run_accepted. Qed.
+Print Assumptions C05_ideal_run_accepted.
+
+Theorem C05_run_any_built : forall cs lws w ops, build_all cs = Some lws -> forallb op_mixb ops = true ->
+  ideal_run (w_autosplit w) (w_max w) lws ops (snd (run {| st_lw := lws; st_wl := w |} ops))
+            (abs_state {| st_lw := lws; st_wl := w |})
+            (abs_state (fst (run {| st_lw := lws; st_wl := w |} ops))).
+Proof. exact run_any_built. Qed.
+Print Assumptions C05_run_any_built.
+
+(* ------------------------------------------------------------------ examples *)
+
+#[local] Open Scope string_scope.
+
+(** volume and amounts of the named components in some wells of labware [k] of an ideal state *)
+Definition show (W : istate) (k : nat) (wells : list nat) (names : list string) : list (Q * list Q) :=
+  map (fun i => (Qred (iw_vol (W k i)), map (fun x => Qred (iw_amt (W k i) x)) names)) wells.
+
+(** the serial dilution of [ex_run]: the plan named by C05_refines_transfer_plan, and its ideal
+    execution computed in exact arithmetic, next to what the model tracks *)
+Example C05_example_transfer_plan :
+  match mk_labware ex_args with
+  | Ok L =>
+      let s := {| st_lw := [L]; st_wl := ex_w0 |} in
+      let r := transfer s 0 (A1 ["A01"; "B01"; "C01"]) 0 (A1 ["B01"; "C01"; "D01"])
+                        (A1 [50; 50; 50]) (Some "dilute") SFlush "auto" kw_default in
+      let acts := plan true 950 BySource
+                    (transfer_triples (A1 ["A01"; "B01"; "C01"]) (A1 ["B01"; "C01"; "D01"]) (A1 [50; 50; 50])) in
+      snd r = None /\
+      optimize_partition_by (is_trough (lw_geom L)) (is_trough (lw_geom L)) "auto" = Ok BySource /\
+      acts = [Step "A01" "B01" 50; Step "B01" "C01" 50; Step "C01" "D01" 50] /\
+      show (is_exec (abs_state s) 0 0 L L acts) 0 [0; 1; 2; 3]%nat ["stock"; "P.B01"; "P.C01"; "P.D01"]
+      = [(150, [150; 0; 0; 0]); (50, [25; 25; 0; 0]); (50, [25 # 2; 25 # 2; 25; 0]);
+         (100, [25 # 2; 25 # 2; 25; 50])] /\
+      show (abs_state (fst r)) 0 [0; 1; 2; 3]%nat ["stock"; "P.B01"; "P.C01"; "P.D01"]
+      = [(150, [150; 0; 0; 0]); (50, [25; 25; 0; 0]); (50, [25 # 2; 25 # 2; 25; 0]);
+         (100, [25 # 2; 25 # 2; 25; 50])]
+  | Err _ => False
+  end.
+Proof. vm_compute. repeat split. Qed.
+
+Definition ex_ctors : list ctor := [CTrough ex_trough_args; CPlate ex_args].
+
+(** a distribution of 25 from trough column 1 into column 2 through two virtual rows and into
+    column 3 of the SAME trough: the hypotheses of C05_refines_distribute hold, and the three ideal
+    pipetting steps give what the model tracks (column 2 receives 2 x 25) *)
+Example C05_example_distribute_refines :
+  match build_all ex_ctors with
+  | Some [T; P] =>
+      let s := {| st_lw := [T; P]; st_wl := ex_w0 |} in
+      let r := distribute s 0 0 (A1 ["A02"; "C02"; "B03"]) ex_dist in
+      snd r = None /\ rvol_x (d_volume ex_dist) = Some (XQ 25) /\ Qle_bool 25 0 = false /\
+      map (lw_index T) ["A02"; "C02"; "B03"] = [Some 1; Some 1; Some 2]%nat /\
+      show (is_exec (abs_state s) 0 0 T T
+              (map (fun w => Step (well_id 0 (Z.to_nat (d_source_column ex_dist))) w 25)
+                   (flattenF (A1 ["A02"; "C02"; "B03"])))) 0 [0; 1; 2]%nat ["T.column_01"; "water"]
+      = [(425, [425; 0]); (50, [50; 0]); (125, [25; 100])] /\
+      show (abs_state (fst r)) 0 [0; 1; 2]%nat ["T.column_01"; "water"]
+      = [(425, [425; 0]); (50, [50; 0]); (125, [25; 100])]
+  | _ => False
+  end.
+Proof. vm_compute. repeat split. Qed.
+
+(** a distribution of volume zero is accepted and changes nothing (C05_refines_distribute_zero) *)
+Definition ex_dist0 : distargs :=
+  {| d_source_column := 2; d_volume := RVFloat (XQ 0); d_diti_reuse := 1; d_multi_disp := 1;
+     d_liquid_class := PStr "Water"; d_label := None; d_direction := "left_to_right";
+     d_src_id := PStr ""; d_src_type := PStr ""; d_dst_id := PStr ""; d_dst_type := PStr "" |}.
+
+Example C05_example_distribute_zero :
+  match build_all ex_ctors with
+  | Some lws =>
+      let s := {| st_lw := lws; st_wl := ex_w0 |} in
+      let r := distribute s 0 1 (A1 ["A01"; "B01"]) ex_dist0 in
+      snd r = None /\ rvol_x (d_volume ex_dist0) = Some (XQ 0) /\
+      show (abs_state (fst r)) 1 [0; 1; 2; 3]%nat ["stock"; "P.B01"; "water"]
+      = show (abs_state s) 1 [0; 1; 2; 3]%nat ["stock"; "P.B01"; "water"] /\
+      map lw_vols (st_lw (fst r)) = map lw_vols lws
+  | None => False
+  end.
+Proof. vm_compute. repeat split. Qed.
+
+(** a program of eight calls on the trough T (labware 0) and the plate P (labware 1):
+    a serial dilution; a transfer from a well into itself; a well emptied (A01 -> C01) and refilled
+    by a dispense that addresses it twice; a distribution within the trough through two virtual
+    rows; a dispense into trough wells addressed through different virtual rows (A03 and H03 are
+    one well) with a zero volume; an aspirate through two virtual rows; a comment *)
+Definition ex_prog2 : list op :=
+  [ OTransfer 1 (A1 ["A01"; "B01"; "C01"]) 1 (A1 ["B01"; "C01"; "D01"]) (A1 [50; 50; 50])
+              (Some "dilute") SFlush "auto" kw_default;
+    OTransfer 1 (A0 "B01") 1 (A0 "B01") (A0 20) None SFlush "auto" kw_default;
+    OTransfer 1 (A0 "A01") 1 (A0 "C01") (A0 150) None SFlush "auto" kw_default;
+    ODispense 1 (A1 ["A01"; "A01"]) (A1 [XQ 30; XQ 10]) (Some "buffer")
+              (Some [Some [("a", 1 # 4); ("b", 3 # 4)]; Some [("b", 1)]]) kw_default;
+    ODistribute 0 0 (A1 ["A02"; "C02"]) ex_dist;
+    ODispense 0 (A1 ["A03"; "H03"; "A01"]) (A1 [XQ 10; XQ 20; XQ 0]) None
+              (Some [Some [("salt", 1)]; Some [("salt", 1 # 2); ("water", 1 # 2)]; Some [("x", 1)]])
+              kw_default;
+    OAspirate 0 (A1 ["B03"; "C03"]) (A0 (XQ 15)) None kw_default;
+    OComment (Some "done") ].
+
+(** the hypotheses of C05_run_refines_built evaluate to true ... *)
+Example C05_example_run_hypotheses :
+  match build_all ex_ctors with
+  | Some lws =>
+      forallb op_mixb ex_prog2 = true /\
+      forallb is_none (snd (run {| st_lw := lws; st_wl := ex_w0 |} ex_prog2)) = true
+  | None => False
+  end.
+Proof. vm_compute. split; reflexivity. Qed.
+
+(** ... the program has an ideal meaning, and the fold gives, well by well and component by
+    component, what the model tracks: A01 of the plate holds only the buffers (the 150 of stock
+    that were there left no trace), column 3 of the trough holds 1100/13 of water *)
+Example C05_example_run_refines :
+  match build_all ex_ctors with
+  | Some lws =>
+      let s := {| st_lw := lws; st_wl := ex_w0 |} in
+      match is_run true 950 lws ex_prog2 with
+      | Some F =>
+          show (F (abs_state s)) 1 [0; 1; 2; 3]%nat ["stock"; "P.B01"; "P.C01"; "P.D01"; "a"; "b"]
+          = [(40, [0; 0; 0; 0; 15 # 2; 65 # 2]); (50, [25; 25; 0; 0; 0; 0]);
+             (200, [325 # 2; 25 # 2; 25; 0; 0; 0]); (100, [25 # 2; 25 # 2; 25; 50; 0; 0])] /\
+          show (abs_state (fst (run s ex_prog2))) 1 [0; 1; 2; 3]%nat
+               ["stock"; "P.B01"; "P.C01"; "P.D01"; "a"; "b"]
+          = [(40, [0; 0; 0; 0; 15 # 2; 65 # 2]); (50, [25; 25; 0; 0; 0; 0]);
+             (200, [325 # 2; 25 # 2; 25; 0; 0; 0]); (100, [25 # 2; 25 # 2; 25; 50; 0; 0])] /\
+          show (F (abs_state s)) 0 [0; 1; 2]%nat ["T.column_01"; "water"; "salt"; "x"]
+          = [(450, [450; 0; 0; 0]); (50, [50; 0; 0; 0]); (100, [0; 1100 # 13; 200 # 13; 0])] /\
+          show (abs_state (fst (run s ex_prog2))) 0 [0; 1; 2]%nat ["T.column_01"; "water"; "salt"; "x"]
+          = [(450, [450; 0; 0; 0]); (50, [50; 0; 0; 0]); (100, [0; 1100 # 13; 200 # 13; 0])]
+      | None => False
+      end
+  | None => False
+  end.
+Proof. vm_compute. repeat split. Qed.
+
+(** rejected calls (C05_run_refines_any): plate Q, 200 of "stock" in A01, 50 in B01, at most 220
+    per well.  The transfer's plan is [A01 -> B01 200; B01 -> A01 10]; its first step empties A01
+    and then overflows B01: the call is rejected with the 200 taken and never dispensed.  The
+    dispense adds 30 to A01, is refused at B01 (500 do not fit) and never reaches its third item.
+    The aspirate is accepted.  The final state is the chain the theorem describes. *)
+Definition ex_args_q : lw_args :=
+  {| a_name := "Q"; a_rows := PInt 2; a_cols := PInt 1; a_min := XQ 0; a_max := XQ 220;
+     a_init := Some (A1 [XQ 200; XQ 50]); a_vrows := None; a_names := [("A01", Some "stock")] |}.
+Definition ex_prog3 : list op :=
+  [ OTransfer 0 (A1 ["B01"; "A01"]) 0 (A1 ["A01"; "B01"]) (A1 [10; 200]) None SFlush "auto" kw_default;
+    ODispense 0 (A1 ["A01"; "B01"; "A01"]) (A1 [XQ 30; XQ 500; XQ 10]) None
+              (Some [Some [("a", 1)]; Some [("b", 1)]; Some [("c", 1)]]) kw_default;
+    OAspirate 0 (A0 "A01") (A0 (XQ 5)) None kw_default ].
+
+Example C05_example_rejected :
+  match build_all [CPlate ex_args_q] with
+  | Some [L] =>
+      let s := {| st_lw := [L]; st_wl := ex_w0 |} in
+      forallb op_mixb ex_prog3 = true /\
+      snd (run s ex_prog3) = [Some EOverflow; Some EOverflow; None] /\
+      plan true 950 BySource (transfer_triples (A1 ["B01"; "A01"]) (A1 ["A01"; "B01"]) (A1 [10; 200]))
+      = ([] ++ Step "A01" "B01" 200 :: [Step "B01" "A01" 10])%list /\
+      let W0 := abs_state s in
+      let W1 := is_upd W0 0 0 (iw_remove (W0 0 0)%nat 200) in         (* 200 taken, never dispensed *)
+      let W2 := is_add W1 0 L (zip (zip ["A01"; "B01"; "A01"] [30]) [[("a", 1)]; [("b", 1)]; [("c", 1)]]) in
+      let W3 := is_rem W2 0 L [("A01", 5)] in
+      show W3 0 [0; 1]%nat ["stock"; "Q.B01"; "a"; "b"; "c"]
+      = [(25, [0; 0; 25; 0; 0]); (50, [0; 50; 0; 0; 0])] /\
+      show (abs_state (fst (run s ex_prog3))) 0 [0; 1]%nat ["stock"; "Q.B01"; "a"; "b"; "c"]
+      = [(25, [0; 0; 25; 0; 0]); (50, [0; 50; 0; 0; 0])]
+  | _ => False
   end.
 Proof. vm_compute. repeat split. Qed.
